@@ -18,13 +18,14 @@ use eyre::WrapErr;
 
 use crate::{
     component::ExecResult,
-    components::{initialization, mutation, replacement, selection},
+    components::{boundary, initialization, mutation, replacement, selection, utils, Scope},
     conditions::Condition,
     configuration::Configuration,
     heuristics::ls,
     identifier::{Global, Identifier},
     logging::Logger,
     problems::{LimitedVectorProblem, SingleObjectiveProblem, VectorProblem},
+    state::common,
     Component,
 };
 
@@ -56,9 +57,16 @@ where
         .do_(ils::<P, Global>(
             Parameters {
                 perturbation: mutation::PartialRandomSpread::new_full(),
-                ls: ls::real_ls::<P>(ls_params, ls_condition)
-                    .wrap_err("failed to construct local search")?
-                    .into_inner(),
+                // Only the local search loop: it refines the perturbed solution instead of
+                // starting from a new random one.
+                ls: ls::ls::<P, Global>(
+                    ls::Parameters {
+                        num_neighbors: ls_params.n_neighbors,
+                        neighbors: mutation::NormalMutation::new_dev(ls_params.deviation),
+                        constraints: boundary::Saturation::new(),
+                    },
+                    ls_condition,
+                ),
             },
             condition,
         ))
@@ -93,9 +101,17 @@ where
         .do_(ils::<P, Global>(
             Parameters {
                 perturbation: <mutation::ScrambleMutation>::new_full(),
-                ls: ls::permutation_ls::<P>(ls_params, ls_condition)
-                    .wrap_err("failed to construct local search")?
-                    .into_inner(),
+                // Only the local search loop: it refines the perturbed solution instead of
+                // starting from a new random one.
+                ls: ls::ls::<P, Global>(
+                    ls::Parameters {
+                        num_neighbors: ls_params.num_neighbors,
+                        neighbors: mutation::SwapMutation::new(ls_params.num_swap)
+                            .wrap_err("failed to construct the swap mutation")?,
+                        constraints: utils::Noop::new(),
+                    },
+                    ls_condition,
+                ),
             },
             condition,
         ))
@@ -122,7 +138,17 @@ where
                 .do_(perturbation)
                 .evaluate_with::<I>()
                 .do_(selection::All::new())
-                .scope_(|builder| builder.do_(ls))
+                .do_(Scope::new_with(
+                    |_| Ok(()),
+                    ls,
+                    |state, inner| {
+                        // The evaluations of the local search count as evaluations of the run.
+                        if let Ok(evaluations) = inner.try_get_value::<common::Evaluations>() {
+                            *state.try_borrow_value_mut::<common::Evaluations>()? += evaluations;
+                        }
+                        Ok(())
+                    },
+                ))
                 .update_best_individual()
                 .do_(replacement::MuPlusLambda::new(1))
                 .do_(Logger::new())
